@@ -186,7 +186,11 @@ def check_stack_case(acc: _Acc, ts: List[Any], elem: Any, rep: Dict[str, Any], t
     B = len(ts)
     acc.states += 1
     snap_ts = [[np.array(np.asarray(x)) for x in _flat(t)[0]] for t in ts]
-    tt = tree_utils.tree_transpose(ts)
+    try:
+        tt = tree_utils.tree_transpose(ts)
+    except Exception as e:  # noqa: BLE001
+        acc.bad(f"tree_transpose:raises:{tag}", f"tree_transpose(B={B}) raised {type(e).__name__}: {str(e)[:200]}", rep)
+        return
     acc.transitions += 1
     want_tt = np_stack_tree(ts)
     p = compare_trees(tt, want_tt, f"tree_transpose(B={B})")
@@ -208,7 +212,12 @@ def check_stack_case(acc: _Acc, ts: List[Any], elem: Any, rep: Dict[str, Any], t
     for i in range(B):
         for kind in kinds:
             acc.transitions += 1
-            sl = slice_fn(tt, idx(i, kind))
+            try:
+                sl = slice_fn(tt, idx(i, kind))
+            except Exception as e:  # noqa: BLE001
+                acc.bad(f"tree_slice:raises:{tag}", f"tree_slice(tree_transpose(ts), {i}) [B={B}] raised "
+                        f"{type(e).__name__}: {str(e)[:200]}", dict(rep, i=i, index_kind=kind))
+                continue
             p = compare_trees(sl, ts[i], f"tree_slice(tree_transpose(ts), {i}) [B={B}, index as {kind}{', jit' if jit else ''}]")
             if p:
                 acc.bad(f"tree_slice-after-transpose:{p[0]}:{tag}", p[1], dict(rep, i=i, index_kind=kind))
@@ -225,7 +234,12 @@ def check_stack_case(acc: _Acc, ts: List[Any], elem: Any, rep: Dict[str, Any], t
     for i in range(B):
         for kind in kinds:
             acc.transitions += 1
-            r = add_fn(t, idx(i, kind), elem)
+            try:
+                r = add_fn(t, idx(i, kind), elem)
+            except Exception as e:  # noqa: BLE001
+                acc.bad(f"tree_add_element:raises:{tag}", f"tree_add_element(t, {i}, e) [B={B}] raised "
+                        f"{type(e).__name__}: {str(e)[:200]}", dict(rep, i=i, index_kind=kind))
+                continue
             ok = True
             lr, tr = _flat(r)
             lt, t_t = _flat(t)
@@ -306,7 +320,12 @@ def stack_task(model: str, struct: str, max_b: int) -> Dict[str, Any]:
                         neg[f"{struct}/shape{SHAPES[s]}/{DTYPES[d]}"] = negative_index_report(ts, elem)
     acc.validated = acc.states
     acc.samples.append({"struct": struct, "tree_0": repr(build(struct, 0, 2, 0, "numpy"))[:300], "B": max_b})
-    return acc.result(structure=struct, max_batch=max_b, negative_index=neg)
+    outcomes: Dict[str, List[str]] = {}
+    for case, o in neg.items():  # reported, not judged: distinct outcomes and how many cases showed each
+        for fn, what in o.items():
+            outcomes.setdefault(f"{fn}: {what}", []).append(case)
+    return acc.result(structure=struct, max_batch=max_b,
+                      negative_index={k: f"{len(v)} case(s), e.g. {v[0]}" for k, v in outcomes.items()})
 
 
 def real_task(model: str, cfg_name: str, max_b: int) -> Dict[str, Any]:
@@ -421,6 +440,7 @@ def check_pair(acc: _Acc, t1: Any, t2: Any, expect: Optional[bool], rep: Dict[st
         acc.bad("reference:disagrees-with-construction", f"{rep}: reference says {want}, construction says {expect}", rep)
         return
     acc.count("equal_pairs" if want else "unequal_pairs")
+    fwd: Optional[bool] = None
     for a, b, d in ((t1, t2, "forward"), (t2, t1, "swapped")):
         acc.transitions += 3
         try:
@@ -430,11 +450,16 @@ def check_pair(acc: _Acc, t1: Any, t2: Any, expect: Optional[bool], rep: Dict[st
             continue
         if type(got) is not bool:
             acc.bad("is_equal_pytree:result-not-bool", f"{rep}: returned {type(got).__name__}", rep)
-        if bool(got) != want:
-            sig = "is_equal_pytree:true-on-different-leaves" if got else "is_equal_pytree:false-on-equal-leaves"
-            if d == "swapped":
-                sig = "is_equal_pytree:not-symmetric-or-" + sig.split(":")[1]
-            acc.bad(f"{sig}:{tag}", f"{d}: is_equal_pytree = {got}, expected {want}; case {rep}", rep)
+        if d == "forward":
+            fwd = bool(got)
+            if fwd != want:
+                sig = "is_equal_pytree:true-on-different-leaves" if got else "is_equal_pytree:false-on-equal-leaves"
+                acc.bad(f"{sig}:{tag}", f"is_equal_pytree(t1, t2) = {got}, expected {want}; case {rep}", rep)
+        elif fwd is not None and bool(got) != fwd:
+            acc.bad(f"is_equal_pytree:not-symmetric:{tag}", f"is_equal_pytree(t1, t2) = {fwd} but "
+                    f"is_equal_pytree(t2, t1) = {got}; case {rep}", rep)
+        else:
+            acc.count("symmetric_checks")
         for fn, should_raise, name in ((pytrees.assert_trees_are_different, want, "assert_trees_are_different"),
                                        (pytrees.assert_trees_are_equal, not want, "assert_trees_are_equal")):
             try:
